@@ -8,6 +8,7 @@
      occurs units u e par         DIE e of unit u has parent par (None = child of the unit root)
      f_valid / f_edge rf          nodes and edges of the dependency graph read off the forest
      filter_refs / conv_refs      the references FilterUnit records / the references the converter resolves
+                                  (modelled at /repo 8f64179, where the filter was repaired)
      reserved rf dbg req units    the offsets Dwarf::convert_with_filter reserves when the user requires
                                   exactly the DIEs with req = true
      convert_filtered / convert_all   which DIEs the (un)filtered conversion emits, with their parents.
@@ -94,47 +95,35 @@ Theorem in_unit_spec : forall u x,
 Proof. exact in_unit_iff. Qed.
 
 (* ------------------------------------------------------------------------------------------ *)
-(* (5) Edge completeness.  For the carriers the filter looks at, it records exactly what the converter
-   resolves; it never records more than the converter resolves. *)
-Theorem edges_complete_partial : forall (u : unitd) (s : site),
-  0 < u_hdr u -> site_covered s = true -> incl (conv_refs u s) (filter_refs u s).
-Proof. exact covered_refs. Qed.
+(* (5) Edge completeness (full statement; /repo 8f64179 repaired the filter).  For EVERY carrier —
+   attribute references, every reference-carrying operation at any nesting depth inside
+   DW_OP_entry_value, in an exprloc or in any raw location-list entry (live, empty, inverted,
+   tombstoned) — the filter records every reference the converter resolves. *)
+Theorem edges_complete : forall (u : unitd) (s : site), incl (conv_refs u s) (filter_refs u s).
+Proof. exact filter_refs_complete. Qed.
 
+(* and it records nothing the converter does not resolve *)
 Theorem edges_sound : forall (u : unitd) (s : site),
   0 < u_hdr u -> incl (filter_refs u s) (conv_refs u s).
 Proof. exact filter_refs_sound. Qed.
 
-(* FULL STATEMENT (fails for the code as it is):
-     forall u s, 0 < u_hdr u -> incl (conv_refs u s) (filter_refs u s).
-   Refuted for DW_OP_implicit_pointer (likewise DW_OP_GNU_variable_value, anything inside
-   DW_OP_entry_value, and location-list entries that LocListIter skips): *)
-Definition u_ex : unitd := {| u_off := 0; u_hdr := 11; u_len := 40; u_kids := [] |}.
-Theorem edges_complete_refuted :
-  exists u s, 0 < u_hdr u /\ ~ incl (conv_refs u s) (filter_refs u s).
-Proof.
-  exists u_ex, {| s_car := CExpr 0 OpImplicitPointer; s_val := 21 |}. split; [reflexivity|].
-  intros H. destruct (H 21 (or_introl eq_refl)).
-Qed.
-
 (* ------------------------------------------------------------------------------------------ *)
-(* (3) No dangling reference.  If every reference site of the forest is of a kind the filter covers and
-   the unfiltered conversion succeeds, then the filtered conversion succeeds too — no
-   InvalidUnitRef / InvalidDebugInfoRef for a missing DIE — and it emits exactly the reserved DIEs
-   (in section order). *)
+(* (3) No dangling reference (full statement).  Whenever the unfiltered conversion of a forest succeeds,
+   the filtered conversion succeeds too, for every required predicate and both build modes — no
+   InvalidUnitRef / InvalidDebugInfoRef for a DIE that was not reserved — and it emits exactly the
+   reserved DIEs (in section order).  (Out-of-bounds or non-DIE references make the unfiltered
+   conversion fail and are outside this statement; the filter ignores them.) *)
 Theorem no_dangling : forall (dbg : bool) (req : N -> bool) (units : list unitd),
   wf_offsets units -> wf_layout units ->
-  (forall u, In u units -> 0 < u_hdr u) ->
-  (forall u e par s, occurs units u e par -> In s (e_sites e) -> site_covered s = true) ->
   (exists out0, convert_all units = Ok out0) ->
   exists S out,
     reserved filter_refs dbg req units = Ok S /\
     convert_filtered filter_refs dbg req units = Ok out /\
     (forall x, In x (map fst out) <-> In x S) /\
     (strict_sorted (section_offsets units) -> map fst out = S).
-Proof. exact no_dangling_covered. Qed.
+Proof. exact no_dangling_full. Qed.
 
-(* The same conclusion for ANY filter that records at least what the converter resolves (conv_refs
-   itself: the proposed repair), whatever the carriers. *)
+(* The same conclusion for ANY filter that records at least what the converter resolves. *)
 Theorem no_dangling_if_complete : forall rf (dbg : bool) (req : N -> bool) (units : list unitd),
   wf_offsets units -> wf_layout units ->
   (forall u e par s, occurs units u e par -> In s (e_sites e) -> incl (conv_refs u s) (rf u s)) ->
@@ -146,23 +135,17 @@ Theorem no_dangling_if_complete : forall rf (dbg : bool) (req : N -> bool) (unit
     (strict_sorted (section_offsets units) -> map fst out = S).
 Proof. exact filtered_conversion_ok. Qed.
 
-(* The expected column of stream c19.sites: with the all-references view conv_refs (the repaired filter)
-   the filtered conversion succeeds whenever the unfiltered one does, for every carrier. *)
-Theorem complete_filter_never_fails : forall (dbg : bool) (req : N -> bool) (units : list unitd),
-  wf_offsets units -> wf_layout units ->
-  (exists out0, convert_all units = Ok out0) ->
-  exists S out,
-    reserved conv_refs dbg req units = Ok S /\
-    convert_filtered conv_refs dbg req units = Ok out /\
-    (forall x, In x (map fst out) <-> In x S) /\
-    (strict_sorted (section_offsets units) -> map fst out = S).
-Proof. exact complete_filter_ok. Qed.
+(* The filter's view and the converter's view of the references reserve the same DIEs: the reserved set
+   is the closure over exactly the references the converter resolves (the property's "everything
+   those entries reference, directly or from their expressions and location lists"). *)
+Theorem policy_agrees : forall (dbg : bool) (req : N -> bool) (units : list unitd),
+  wf_offsets units ->
+  (forall u, In u units -> 0 < u_hdr u) ->
+  convert_filtered filter_refs dbg req units = convert_filtered conv_refs dbg req units.
+Proof. exact policy_eq. Qed.
 
-(* FULL STATEMENT of the property's "never fails for a missing reference" (fails for the code as it is):
-     forall dbg req units, wf_offsets units -> wf_layout units ->
-       (exists out0, convert_all units = Ok out0) ->
-       exists out, convert_filtered filter_refs dbg req units = Ok out.
-   Refuted: a required DIE whose DW_AT_location is DW_OP_implicit_pointer(other DIE). *)
+(* the former counterexample (fixed: 8f64179): a required DIE whose DW_AT_location is
+   DW_OP_implicit_pointer(other DIE) now pulls that DIE in *)
 Definition ex_a : entry := {| e_off := 21; e_tag := 36; e_decl := false; e_sites := [] |}.
 Definition ex_b : entry :=
   {| e_off := 31; e_tag := 19; e_decl := false;
@@ -171,7 +154,7 @@ Definition ex_units : list unitd :=
   [ {| u_off := 0; u_hdr := 11; u_len := 40; u_kids := [Node ex_a []; Node ex_b []] |} ].
 Definition ex_req (x : N) : bool := x =? 31.
 
-Lemma ex_wf : wf_offsets ex_units /\ wf_layout ex_units.
+Example ex_wf : wf_offsets ex_units /\ wf_layout ex_units.
 Proof.
   split.
   - unfold wf_offsets. cbn. repeat constructor; cbn; intuition discriminate.
@@ -180,25 +163,11 @@ Proof.
     destruct Hin as [H|[H|[]]]; inversion H; subst; cbn; split; reflexivity.
 Qed.
 
-Theorem filter_incomplete_refuted :
-  wf_offsets ex_units /\ wf_layout ex_units /\
+Example implicit_pointer_ex :
   convert_all ex_units = Ok [(21, 11); (31, 11)] /\
-  convert_filtered filter_refs true ex_req ex_units = Err CInvalidDebugInfoRef /\
-  convert_filtered filter_refs false ex_req ex_units = Err CInvalidDebugInfoRef /\
-  convert_filtered conv_refs true ex_req ex_units = Ok [(21, 11); (31, 11)].
-Proof.
-  split; [exact (proj1 ex_wf)|]. split; [exact (proj2 ex_wf)|].
-  repeat split; vm_compute; reflexivity.
-Qed.
-
-(* When every site is covered, the code's filter and the all-references filter reserve the same DIEs:
-   the expected column of stream c19.closure is the closure over ALL references. *)
-Theorem covered_policy_agrees : forall (dbg : bool) (req : N -> bool) (units : list unitd),
-  wf_offsets units ->
-  (forall u, In u units -> 0 < u_hdr u) ->
-  (forall u e par s, occurs units u e par -> In s (e_sites e) -> site_covered s = true) ->
-  convert_filtered filter_refs dbg req units = convert_filtered conv_refs dbg req units.
-Proof. exact covered_policy_eq. Qed.
+  convert_filtered filter_refs true ex_req ex_units = Ok [(21, 11); (31, 11)] /\
+  convert_filtered filter_refs false ex_req ex_units = Ok [(21, 11); (31, 11)].
+Proof. repeat split; vm_compute; reflexivity. Qed.
 
 (* ------------------------------------------------------------------------------------------ *)
 (* Parent links.  Although unreserved DIEs are skipped, every DIE of the filtered output is attached to
@@ -256,19 +225,6 @@ Example tags_ex :
   has_die_back_edge 46 false = false /\ has_die_back_edge 46 true = true /\ has_die_back_edge 16649 true = true.
 Proof. vm_compute. repeat split. Qed.
 
-(* the hypotheses of no_dangling hold for ex_forest *)
-Example no_dangling_hyps_ex :
-  (forall u, In u ex_forest -> 0 < u_hdr u) /\
-  (forall u e par s, occurs ex_forest u e par -> In s (e_sites e) -> site_covered s = true).
-Proof.
-  split.
-  - intros u [<-|[]]. reflexivity.
-  - intros u e par s [[<-|[]] Hin] Hs. cbn in Hin.
-    repeat (destruct Hin as [H|Hin];
-            [inversion H; subst; cbn in Hs; repeat (destruct Hs as [<-|Hs]; [reflexivity|]); destruct Hs|]).
-    destruct Hin.
-Qed.
-
 (* two units, a cross-unit DW_FORM_ref_addr reference into a namespace of the second unit: the slices
    handed to reserve_unit and the DIEs that come out *)
 Definition ex2_var : entry :=
@@ -284,9 +240,13 @@ Example slices_ex :
   convert_filtered filter_refs true (fun x => x =? 21) ex2_units = Ok [(21, 11); (121, 111); (131, 121)].
 Proof. repeat split; vm_compute; reflexivity. Qed.
 
-Example covered_ex : site_covered {| s_car := CLoc LocLive 0 OpCall; s_val := 21 |} = true /\
-                     site_covered {| s_car := CExpr 1 OpCall; s_val := 21 |} = false /\
-                     site_covered {| s_car := CLoc LocEmpty 0 OpCall; s_val := 21 |} = false.
+Definition u_ex : unitd := {| u_off := 0; u_hdr := 11; u_len := 40; u_kids := [] |}.
+(* every carrier yields the edge: nested in DW_OP_entry_value, in a skipped location-list entry *)
+Example carriers_ex :
+  filter_refs u_ex {| s_car := CExpr 2 OpImplicitPointer; s_val := 21 |} = [21] /\
+  filter_refs u_ex {| s_car := CLoc LocEmpty 1 OpCall; s_val := 21 |} = [21] /\
+  filter_refs u_ex {| s_car := CLoc LocTombstone 0 OpVariableValue; s_val := 21 |} = [21] /\
+  filter_refs u_ex {| s_car := CExpr 0 OpConvert; s_val := 0 |} = [].
 Proof. repeat split. Qed.
 
 (* pins *)
@@ -299,4 +259,4 @@ Check closure : forall (dbg : bool) (req : N -> bool) (units : list unitd),
     dependency_closed filter_refs req units (fun x => In x S) /\
     (forall x, In x S -> f_valid units x) /\
     (forall T : N -> Prop, dependency_closed filter_refs req units T -> forall x, In x S -> T x).
-Check filter_incomplete_refuted.
+Check edges_complete : forall (u : unitd) (s : site), incl (conv_refs u s) (filter_refs u s).
